@@ -231,10 +231,14 @@ func deadRecordVersions(disk string) []int64 {
 // c04longLived: one block-state trie object lives through all rounds of the history (the version is advanced with
 // SetVersion, the pending change set keeps growing and is saved again every round, sometimes twice in a row): after
 // every save every root saved so far must be complete on the store alone.
-func c04longLived(c *fw.Ctx) {
+func c04longLived(c *fw.Ctx) { longLivedHistory(c, "C04", nil) }
+
+// longLivedHistory runs the long-lived-trie history; after every save it re-reads every saved root from the store alone
+// and calls sweep (if given) on the store.
+func longLivedHistory(c *fw.Ctx, tag string, sweep func(disk string, pndb *util.PNodeDB) bool) {
 	r := c.Rng
 	g := lab.NewPathGen(r)
-	disk := fmt.Sprintf("/verif-stub/C04/%d/%d/long", c.Seed, c.Idx)
+	disk := fmt.Sprintf("/verif-stub/%s/%d/%d/long", tag, c.Seed, c.Idx)
 	defer grocksdb.DropDisk(disk)
 	pndb, err := util.NewPNodeDB(disk, "")
 	if err != nil {
@@ -282,6 +286,9 @@ func c04longLived(c *fw.Ctx) {
 				return
 			}
 			c.Count("roots_reread", 1)
+		}
+		if sweep != nil && !sweep(disk, pndb) {
+			return
 		}
 		c.Count("rounds_on_a_long_lived_trie", 1)
 	}
